@@ -17,7 +17,11 @@ RULE = ("same shapes and embedding scenarios as C01; for each shape the document
         "behind 0, 11 (and 22) fixed groups in each presentation (as written; LF, CR, CRLF put in; a space; a character outside the alphabet; a pad in "
         "the place of a sextet; one pad more, one less, none; trailing bits set; a group after the padding; cut short) with the verdict and bytes of "
         "the specification's reader, read into 10 targets (plain, named, behind pointers, field, map value merged, elements; some holding earlier "
-        "content) through Unmarshal, Parse and Decoder x {UseNumber + DisallowUnknownFields}, line breaks written as \\n and as \\u000a")
+        "content) through Unmarshal, Parse and Decoder x {UseNumber + DisallowUnknownFields}, line breaks written as \\n and as \\u000a; "
+        "plus spec/IntParse.tla: every digit string that follows one of the 12 bounds of the integer kinds for its first i digits, then goes one below, along or "
+        "one above, filled with 0s or 9s to the bound's length or one more, with and without a sign, fraction or exponent, into each of the 8 kinds as a "
+        "value, field, element, map value and behind a pointer (verdict and value of the specification's parser) and as a map key and `,string` field "
+        "(verdict of encoding/json)")
 ASSUME = ["encoding/json is the oracle of record; after a failed decode both variables are reset (partial content is outside the guarantee)",
           "time.Time values are compared as instants with equal zone offsets"]
 
@@ -53,6 +57,18 @@ def extra(ck, vec):
         g = vlib.must_hold(vlib.tlc("Base64", "Gen_Base64.cfg", workers=8, sink=sink, defines=b64, timeout=3000), "base64 texts and their presentations")
     ck.add_mc(g, "Gen_Base64")
     ck.notes["base64_presentations"] = g.vectors
+    # integer literals: the loops of parseInt / parseUint with their overflow guards, one digit per step, against the definition
+    mc = vlib.must_hold(vlib.tlc("IntParse", "MC_IntParse.cfg", workers=8, timeout=3000),
+                        "IntParse: the guarded loops refine the definition of an integer literal in the range of its kind; the accumulator never wraps")
+    ck.add_mc(mc, "MC_IntParse")
+    w = vlib.tlc("IntParse", "MC_IntParseNoGuard.cfg", workers=4, expect_violation=True)
+    if w.ok or w.violation != "Refines":
+        raise vlib.Infra("IntParse without the test of the last digit should violate Refines: the model is vacuous")
+    ck.add_mc(w, "MC_IntParseNoGuard(vacuity witness)")
+    with open(vec, "a") as sink:
+        g = vlib.must_hold(vlib.tlc("IntParse", "Gen_IntParse.cfg", workers=8, sink=sink, timeout=3000), "integer literals along the bounds of the kinds")
+    ck.add_mc(g, "Gen_IntParse")
+    ck.notes["integer_literals"] = g.vectors
 
 
 def run(tier, seed):
